@@ -271,7 +271,7 @@ pub fn spaces(tier: Tier, _seed: u64) -> Vec<Box<dyn Space>> {
         v.push(Box::new(C14Chars { e: EChar { alpha: a, max_len } }));
     }
     // rendered token sequences over the full token alphabet (with malformed variants)
-    v.push(crate::space::TextSpace::toks(crate::props::c01::etok(true, 3, crate::space::etok::Render::Spaced), oracle));
-    v.push(crate::space::TextSpace::toks(crate::props::c01::etok(true, if tier.is_thorough() { 3 } else { 2 }, crate::space::etok::Render::Tight), oracle));
+    v.push(crate::props::c01::tok_space(true, 3, crate::space::etok::Render::Spaced, oracle));
+    v.push(crate::props::c01::tok_space(true, if tier.is_thorough() { 3 } else { 2 }, crate::space::etok::Render::Tight, oracle));
     v
 }
